@@ -1,6 +1,7 @@
 SPEC = {
-    "lean_modules": ["AM.Props.Suppress", "AM.Props.C03"],
+    "lean_modules": ["AM.Props.Registry", "AM.Props.Suppress", "AM.Props.C03"],
     "theorems": [
+        "AM.Registry.subscribe_keeps_served", "AM.Registry.gc_keeps_live", "AM.Registry.keysFresh_run", "AM.Registry.len_keyed_displaces_live_subscriber",
         "AM.Suppress.suppressed_never_notified", "AM.Suppress.surviving_iff",
         # repaired code (fixes/F2.diff): full statements
         "AM.Inhibit.mutes_iff_spec", "AM.Inhibit.verdict_order_independent",
